@@ -58,7 +58,8 @@ def parseTab (ts : List String) : Tab :=
   { psize := natD ((kv? ts "psize").getD "0"),
     fi := (parsePairs ((kv? ts "fi").getD "-")).map (fun p => ⟨p.1, p.2⟩),
     li := (parsePairs ((kv? ts "li").getD "-")).map (fun p => ⟨p.1, p.2⟩),
-    names := parseNames ((kv? ts "files").getD "-") }
+    names := parseNames ((kv? ts "files").getD "-"),
+    sizeField := natD ((((kv? ts "hdr").getD "0:0").splitOn ":").headD "0") }
 
 def parseDecRuns (ts : List String) : List (Nat × String) :=
   ts.filterMap fun t =>
@@ -138,7 +139,7 @@ def renderTab (prog : String) (st : Enc) : String :=
     | some e => e.2
     | none => "?"
   let fs := if files.isEmpty then "-" else ",".intercalate (files.map fun f => s!"{f}:{nm f}")
-  s!"tab {prog} psize={st.psize} fi={renderPairs (fi.map fun s => (s.count, s.file))} li={renderPairs (st.li.map fun r => (r.len, r.line))} files={fs}"
+  s!"tab {prog} psize={st.psize} hdr={sizeFieldOf fi.length st.li.length}:{lnoffOf fi.length % hdrMod} fi={renderPairs (fi.map fun s => (s.count, s.file))} li={renderPairs (st.li.map fun r => (r.len, r.line))} files={fs}"
 
 def rle (xs : List String) : List (Nat × String) :=
   (xs.foldl (fun (acc : List (Nat × String)) x =>
